@@ -46,10 +46,24 @@ const (
 )
 
 // string-typed struct fields that hold an address / a denomination rather than free text
-var addrFieldNames = map[string]bool{"Owner": true, "Sender": true, "Receiver": true, "Authority": true, "Purchaser": true, "Signer": true}
+var addrFieldNames = map[string]bool{"Owner": true, "Sender": true, "Receiver": true, "Authority": true, "Purchaser": true, "Signer": true, "Address": true}
 var denomFieldNames = map[string]bool{"Denom": true}
 
+const (
+	tEnum    gtype = "Enum"    // a protobuf enum (int32 constants)
+	tSigners gtype = "Signers" // Params.EntSigners: the comma-separated list of addresses, abstract: the list itself
+	tModAcc  gtype = "ModAcc"  // a module account handle as returned by Get<Module>Account (nil when not set)
+)
+
 func isStruct(t gtype) bool { return strings.HasPrefix(string(t), "S:") }
+func isList(t gtype) bool   { return strings.HasPrefix(string(t), "L:") }
+func elemOf(t gtype) gtype  { return gtype(strings.TrimPrefix(string(t), "L:")) }
+
+var enumTypeNames = map[string]bool{"PurchaseOrderStatus": true, "WhitelistAction": true}
+
+// named slice types of the module's types package (type X []Y), read from types/types.go
+var sliceTypes = map[string]ast.Expr{}
+
 func structName(t gtype) string {
 	return strings.TrimPrefix(string(t), "S:")
 }
@@ -72,9 +86,18 @@ func coqTypeK(t gtype) string {
 		return "unit"
 	case tStr:
 		return "string"
+	case tEnum:
+		return "Z"
+	case tSigners:
+		return "(list go_addr)"
+	case tModAcc:
+		return "go_modacc"
 	}
 	if isStruct(t) {
 		return "go_" + structName(t)
+	}
+	if isList(t) {
+		return "(list " + coqTypeK(elemOf(t)) + ")"
 	}
 	return "?"
 }
@@ -99,9 +122,16 @@ func zeroOf(t gtype) string {
 		return "tt"
 	case tStr:
 		return "EmptyString"
+	case tEnum:
+		return "0"
+	case tSigners:
+		return "[]"
 	}
 	if isStruct(t) {
 		return "zero_go_" + structName(t)
+	}
+	if isList(t) {
+		return "[]"
 	}
 	return "?"
 }
@@ -111,9 +141,19 @@ func goTypeK(e ast.Expr) gtype {
 	if e == nil {
 		return tUnknown
 	}
+	if at, ok := e.(*ast.ArrayType); ok && at.Len == nil {
+		if exprName(at.Elt) == "abci.ValidatorUpdate" {
+			return tUnit // InitGenesis returns no validator updates
+		}
+		et := goTypeK(at.Elt)
+		if et == tUnknown {
+			return tUnknown
+		}
+		return gtype("L:" + string(et))
+	}
 	n := exprName(e)
 	switch n {
-	case "int64":
+	case "int64", "int":
 		return tInt64
 	case "uint64":
 		return tUint64
@@ -129,6 +169,8 @@ func goTypeK(e ast.Expr) gtype {
 		return tDec
 	case "sdk.Coin", "types.Coin":
 		return tCoin
+	case "sdk.Coins":
+		return tCoins
 	case "sdk.AccAddress":
 		return tAddr
 	case "time.Time":
@@ -139,6 +181,15 @@ func goTypeK(e ast.Expr) gtype {
 	n = strings.TrimPrefix(n, "types.")
 	if _, ok := structTable[n]; ok {
 		return gtype("S:" + n)
+	}
+	if enumTypeNames[n] {
+		return tEnum
+	}
+	if elt, ok := sliceTypes[n]; ok {
+		et := goTypeK(elt)
+		if et != tUnknown {
+			return gtype("L:" + string(et))
+		}
 	}
 	return tUnknown
 }
@@ -160,8 +211,10 @@ type moduleSpec struct {
 	imports   string // Coq imports of the generated keeper file
 	typesMod  string // name of the generated types file (without .v)
 	keeperMod string
-	listName  string   // name of the Definition listing the functions that are NOT translated
-	msgTypes  []string // message types whose ValidateBasic (types/msgs.go) is translated too
+	listName  string      // name of the Definition listing the functions that are NOT translated
+	msgTypes  []string    // message types whose ValidateBasic (types/msgs.go) is translated too
+	typeFuncs [][2]string // (file of x/<module>/types, function): pure helpers of package types translated too
+	rootFiles []string    // files of x/<module>/ (package root: genesis.go) whose functions may be listed in want
 }
 
 type constDef struct {
@@ -174,12 +227,48 @@ var cur *moduleSpec
 var structTable = map[string][]field{}
 var structOrder []string
 
+// typed enum constants of the protobuf files: Go name -> value
+var enumConsts = map[string]string{}
+var enumOrder []string
+
 // loadStructs reads the struct declarations of the generated protobuf files
 func loadStructs(repo string) {
 	structTable = map[string][]field{}
 	structOrder = nil
+	enumConsts = map[string]string{}
+	enumOrder = nil
+	sliceTypes = map[string]ast.Expr{}
+	if _, err := os.Stat(filepath.Join(repo, "x", cur.name, "types", "types.go")); err == nil {
+		tf := parseFile(filepath.Join(repo, "x", cur.name, "types", "types.go"))
+		for _, d := range tf.Decls {
+			if gd, ok := d.(*ast.GenDecl); ok && gd.Tok == token.TYPE {
+				for _, sp := range gd.Specs {
+					ts := sp.(*ast.TypeSpec)
+					if at, ok := ts.Type.(*ast.ArrayType); ok && at.Len == nil {
+						sliceTypes[ts.Name.Name] = at.Elt
+					}
+				}
+			}
+		}
+	}
 	for _, fn := range cur.pbFiles {
 		f := parseFile(filepath.Join(repo, "x", cur.name, "types", fn))
+		for _, d := range f.Decls {
+			gd, ok := d.(*ast.GenDecl)
+			if !ok || gd.Tok != token.CONST {
+				continue
+			}
+			for _, sp := range gd.Specs {
+				vs := sp.(*ast.ValueSpec)
+				if vs.Type == nil || !enumTypeNames[exprName(vs.Type)] || len(vs.Names) != 1 || len(vs.Values) != 1 {
+					continue
+				}
+				if bl, ok := vs.Values[0].(*ast.BasicLit); ok && bl.Kind == token.INT {
+					enumConsts[vs.Names[0].Name] = bl.Value
+					enumOrder = append(enumOrder, vs.Names[0].Name)
+				}
+			}
+		}
 		// two passes so that a struct can mention one declared later in the same file
 		for pass := 0; pass < 2; pass++ {
 			for _, d := range f.Decls {
@@ -206,6 +295,10 @@ func loadStructs(repo string) {
 								fty = tAddrStr
 							} else if ty == tStr && denomFieldNames[nm.Name] {
 								fty = tDenom
+							} else if ty == tStr && nm.Name == "EntSigners" {
+								fty = tSigners
+							} else if ty == gtype("L:"+string(tStr)) && nm.Name == "Whitelist" {
+								fty = gtype("L:" + string(tAddrStr))
 							}
 							fs = append(fs, field{nm.Name, fty})
 						}
@@ -247,8 +340,12 @@ func writeStructTypes(out string) {
 				sb.WriteString("(* NOT TRANSLATED struct " + n + ": unsupported field type *)\n\n")
 				return
 			}
-			if isStruct(f.typ) {
-				emit(structName(f.typ))
+			ft := f.typ
+			for isList(ft) {
+				ft = elemOf(ft)
+			}
+			if isStruct(ft) {
+				emit(structName(ft))
 			}
 		}
 		var decl, zeros []string
@@ -274,6 +371,9 @@ func writeStructTypes(out string) {
 	}
 	for _, n := range structOrder {
 		emit(n)
+	}
+	for _, n := range enumOrder {
+		sb.WriteString(fmt.Sprintf("Definition %s_%s : Z := %s.\n", cur.name, n, enumConsts[n]))
 	}
 	os.WriteFile(out, []byte(sb.String()), 0o644)
 }
@@ -328,8 +428,19 @@ var kMethodTable = map[methodKey]fnSig{
 	{tTime, "Unix"}:       {coq: "Time_Unix", results: []gtype{tInt64}}, {tTime, "Nanosecond"}: {coq: "Time_Nanosecond", results: []gtype{tInt64}},
 	{tTime, "After"}: {coq: "Time_After", results: []gtype{tBool}}, {tTime, "Before"}: {coq: "Time_Before", results: []gtype{tBool}},
 	{tTime, "Equal"}: {coq: "Time_Equal", results: []gtype{tBool}}, {tTime, "UTC"}: {coq: "Time_UTC", results: []gtype{tTime}},
-	{tAddr, "String"}: {coq: "Addr_String", results: []gtype{tAddrStr}},
-	{tAddr, "Empty"}:  {coq: "Addr_Empty", results: []gtype{tBool}},
+	{tAddr, "String"}:       {coq: "Addr_String", results: []gtype{tAddrStr}},
+	{tAddr, "Empty"}:        {coq: "Addr_Empty", results: []gtype{tBool}},
+	{tAddr, "Equals"}:       {coq: "Addr_Equals", results: []gtype{tBool}},
+	{tCoin, "IsValid"}:      {coq: "Coin_IsValid", results: []gtype{tBool}},
+	{tCoins, "AmountOf"}:    {coq: "Coins_AmountOf", results: []gtype{tInt}},
+	{tCoins, "Find"}:        {coq: "Coins_Find", results: []gtype{tBool, tCoin}},
+	{tCoins, "SafeSub"}:     {coq: "Coins_SafeSub1", impure: true, results: []gtype{tCoins, tBool}},
+	{tCoins, "Add"}:         {coq: "Coins_AddAll", impure: true, results: []gtype{tCoins}},
+	{tCoins, "Empty"}:       {coq: "Coins_Empty", results: []gtype{tBool}},
+	{tCoins, "IsZero"}:      {coq: "Coins_IsZero", results: []gtype{tBool}},
+	{tCoins, "IsEqual"}:     {coq: "Coins_IsEqual", impure: true, results: []gtype{tBool}},
+	{tModAcc, "GetAddress"}: {coq: "modacc_addr", results: []gtype{tAddr}},
+	{tCoin, "IsPositive"}:   {coq: "Coin_IsPositive", results: []gtype{tBool}},
 }
 
 // package-level / keeper-field constants
@@ -368,20 +479,25 @@ func registryPrims(ent, rec string) map[string]fnSig {
 	for k, v := range rec2prims(rec) {
 		m[k] = v
 	}
+	// genesis
+	m["k.GetParams"] = fnSig{coq: "reg_GetParams", reads: true, results: []gtype{"S:Params"}, dropCtx: true}
+	m["k.GetAll"+ent+"s"] = fnSig{coq: "reg_GetAllEntities", reads: true, results: []gtype{gtype("L:" + E)}, dropCtx: true}
 	return m
 }
 
 func rec2prims(rec string) map[string]fnSig {
 	if rec == "WrkChainBlock" {
 		return map[string]fnSig{
-			"k.SetWrkChainBlock":             {coq: "reg_SetRecord", stateful: true, impure: true, hasErr: true, dropCtx: true},
-			"k.deleteWrkChainHash":           {coq: "reg_DeleteRecord", stateful: true, impure: true, hasErr: true, dropCtx: true},
-			"k.GetLastWrkChainHeightInState": u64("reg_LowestKeyInState", true),
+			"k.SetWrkChainBlock":                          {coq: "reg_SetRecord", stateful: true, impure: true, hasErr: true, dropCtx: true},
+			"k.deleteWrkChainHash":                        {coq: "reg_DeleteRecord", stateful: true, impure: true, hasErr: true, dropCtx: true},
+			"k.GetLastWrkChainHeightInState":              u64("reg_LowestKeyInState", true),
+			"k.GetAllWrkChainBlockHashesForGenesisExport": {coq: "reg_GetRecordsForExport", reads: true, results: []gtype{"L:S:WrkChainBlockGenesisExport"}, dropCtx: true},
 		}
 	}
 	return map[string]fnSig{
-		"k.SetBeaconTimestamp":    {coq: "reg_SetRecord", stateful: true, impure: true, hasErr: true, dropCtx: true},
-		"k.deleteBeaconTimestamp": {coq: "reg_DeleteRecord", stateful: true, impure: true, hasErr: true, dropCtx: true},
+		"k.SetBeaconTimestamp":              {coq: "reg_SetRecord", stateful: true, impure: true, hasErr: true, dropCtx: true},
+		"k.deleteBeaconTimestamp":           {coq: "reg_DeleteRecord", stateful: true, impure: true, hasErr: true, dropCtx: true},
+		"k.GetAllBeaconTimestampsForExport": {coq: "reg_GetRecordsForExport", reads: true, results: []gtype{"L:S:BeaconTimestampGenesisExport"}, dropCtx: true},
 	}
 }
 
@@ -389,7 +505,66 @@ var registryConsts = map[string]constDef{
 	"k.authority": {"KEEPER_authority", tAddrStr},
 }
 
+var enterprisePrims = map[string]fnSig{
+	"k.GetLockedUndForAccount":                        {coq: "ent_GetLockedUndForAccount", reads: true, results: []gtype{"S:LockedUnd"}, dropCtx: true},
+	"k.SetLockedUndForAccount":                        {coq: "ent_SetLockedUndForAccount", stateful: true, impure: true, hasErr: true, dropCtx: true},
+	"k.GetTotalLockedUnd":                             {coq: "ent_GetTotalLockedUnd", reads: true, results: []gtype{tCoin}, dropCtx: true},
+	"k.SetTotalLockedUnd":                             {coq: "ent_SetTotalLockedUnd", stateful: true, impure: true, hasErr: true, dropCtx: true},
+	"k.GetSpentEFUNDForAccount":                       {coq: "ent_GetSpentEFUNDForAccount", reads: true, results: []gtype{"S:SpentEFUND"}, dropCtx: true},
+	"k.SetSpentEFUNDForAccount":                       {coq: "ent_SetSpentEFUNDForAccount", stateful: true, impure: true, hasErr: true, dropCtx: true},
+	"k.GetTotalSpentEFUND":                            {coq: "ent_GetTotalSpentEFUND", reads: true, results: []gtype{tCoin}, dropCtx: true},
+	"k.SetTotalSpentEFUND":                            {coq: "ent_SetTotalSpentEFUND", stateful: true, impure: true, hasErr: true, dropCtx: true},
+	"k.GetParamDenom":                                 {coq: "ent_GetParamDenom", reads: true, results: []gtype{tDenom}, dropCtx: true},
+	"k.bankKeeper.MintCoins":                          {coq: "bank_MintCoins", stateful: true, impure: true, hasErr: true, dropCtx: true},
+	"k.bankKeeper.SendCoinsFromModuleToAccount":       {coq: "bank_SendCoinsFromModuleToAccount", stateful: true, impure: true, hasErr: true, dropCtx: true},
+	"k.bankKeeper.DelegateCoinsFromAccountToModule":   {coq: "bank_DelegateCoinsFromAccountToModule", stateful: true, impure: true, hasErr: true, dropCtx: true},
+	"k.bankKeeper.UndelegateCoinsFromModuleToAccount": {coq: "bank_UndelegateCoinsFromModuleToAccount", stateful: true, impure: true, hasErr: true, dropCtx: true},
+	"k.bankKeeper.SpendableCoins":                     {coq: "bank_SpendableCoins", reads: true, results: []gtype{tCoins}, dropCtx: true},
+	"sdk.NewCoins":                                    {coq: "sdk_NewCoins1", impure: true, results: []gtype{tCoins}},
+	"sdk.NewCoin":                                     {coq: "sdk_NewCoin", impure: true, results: []gtype{tCoin}},
+	"sdk.NewInt64Coin":                                {coq: "sdk_NewCoin", impure: true, results: []gtype{tCoin}},
+	// begin blocker
+	"ctx.BlockTime":                          {coq: "ew_now", reads: true, results: []gtype{tTime}},
+	"k.GetAllRaisedPurchaseOrders":           {coq: "ent_GetAllRaisedPurchaseOrders", reads: true, results: []gtype{"L:uint64"}, dropCtx: true},
+	"k.GetAllAcceptedPurchaseOrders":         {coq: "ent_GetAllAcceptedPurchaseOrders", reads: true, results: []gtype{"L:uint64"}, dropCtx: true},
+	"k.GetParams":                            {coq: "ent_GetParams", reads: true, results: []gtype{"S:Params"}, dropCtx: true},
+	"k.GetPurchaseOrder":                     {coq: "ent_GetPurchaseOrder", reads: true, results: []gtype{"S:EnterpriseUndPurchaseOrder", tBool}, dropCtx: true},
+	"k.SetPurchaseOrder":                     {coq: "ent_SetPurchaseOrder", stateful: true, impure: true, hasErr: true, dropCtx: true},
+	"k.RemovePurchaseOrderFromRaisedQueue":   {coq: "ent_RemovePurchaseOrderFromRaisedQueue", stateful: true, impure: true, dropCtx: true},
+	"k.RemovePurchaseOrderFromAcceptedQueue": {coq: "ent_RemovePurchaseOrderFromAcceptedQueue", stateful: true, impure: true, dropCtx: true},
+	"k.AddPoToAcceptedQueue":                 {coq: "ent_AddPoToAcceptedQueue", stateful: true, impure: true, dropCtx: true},
+	"sdk.AccAddressFromBech32":               {coq: "ent_AccAddressFromBech32", impure: true, hasErr: true, results: []gtype{tAddr}},
+	// message server
+	"k.GetHighestPurchaseOrderID":        {coq: "ent_GetHighestPurchaseOrderID", reads: true, impure: true, hasErr: true, results: []gtype{tUint64}, dropCtx: true},
+	"k.SetHighestPurchaseOrderID":        {coq: "ent_SetHighestPurchaseOrderID", stateful: true, impure: true, dropCtx: true},
+	"k.AddPoToRaisedQueue":               {coq: "ent_AddPoToRaisedQueue", stateful: true, impure: true, dropCtx: true},
+	"k.GetParamEntSignersAsAddressArray": {coq: "ent_GetParamEntSignersAsAddressArray", reads: true, results: []gtype{"L:Addr"}, dropCtx: true},
+	"k.PurchaseOrderExists":              {coq: "ent_PurchaseOrderExists", reads: true, results: []gtype{tBool}, dropCtx: true},
+	"k.AddressIsWhitelisted":             {coq: "ent_AddressIsWhitelisted", reads: true, results: []gtype{tBool}, dropCtx: true},
+	"k.AddAddressToWhitelist":            {coq: "ent_AddAddressToWhitelist", stateful: true, impure: true, hasErr: true, dropCtx: true},
+	"k.RemoveAddressFromWhitelist":       {coq: "ent_RemoveAddressFromWhitelist", stateful: true, impure: true, hasErr: true, dropCtx: true},
+	"k.SetParams":                        {coq: "ent_SetParams", stateful: true, impure: true, hasErr: true, dropCtx: true},
+	// genesis
+	"k.GetEnterpriseAccount":         {coq: "ent_GetEnterpriseAccount", reads: true, results: []gtype{tModAcc}, dropCtx: true},
+	"bankKeeper.GetAllBalances":      {coq: "bank_GetAllBalances", reads: true, results: []gtype{tCoins}, dropCtx: true},
+	"accountKeeper.SetModuleAccount": {coq: "acc_SetModuleAccount", stateful: true, impure: true, dropCtx: true},
+	"k.GetAllPurchaseOrders":         {coq: "ent_GetAllPurchaseOrders", reads: true, results: []gtype{"L:S:EnterpriseUndPurchaseOrder"}, dropCtx: true},
+	"k.GetAllLockedUnds":             {coq: "ent_GetAllLockedUnds", reads: true, results: []gtype{"L:S:LockedUnd"}, dropCtx: true},
+	"k.GetAllWhitelistedAddresses":   {coq: "ent_GetAllWhitelistedAddresses", reads: true, results: []gtype{"L:AddrStr"}, dropCtx: true},
+	"k.GetAllSpentEFUNDs":            {coq: "ent_GetAllSpentEFUNDs", reads: true, results: []gtype{"L:S:SpentEFUND"}, dropCtx: true},
+}
+
 var modules = map[string]*moduleSpec{
+	"enterprise": {name: "enterprise", pbFiles: []string{"enterprise.pb.go", "tx.pb.go", "genesis.pb.go"}, rootFiles: []string{"genesis.go"}, goFiles: []string{"locked.go", "blocker.go", "purchase.go", "whitelist.go", "msg_server.go"},
+		want: []string{"sendCoinsFromModuleToAccount", "incrementSpentEFUND", "incrementLockedUnd", "decrementLockedUnd", "MintCoinsAndLock", "UnlockCoinsForFees",
+			"ProcessAcceptedPurchaseOrders", "TallyPurchaseOrderDecisions",
+			"RaiseNewPurchaseOrder", "IsAuthorisedToDecide", "ProcessPurchaseOrderDecision", "ProcessWhitelistAction",
+			"UndPurchaseOrder", "ProcessUndPurchaseOrder", "WhitelistAddress", "UpdateParams", "InitGenesis", "ExportGenesis"},
+		typeFuncs: [][2]string{{"purchase_order_status.go", "ValidPurchaseOrderAcceptRejectStatus"}, {"whitelist_action.go", "ValidWhitelistAction"}},
+		msgTypes:  []string{"MsgUndPurchaseOrder", "MsgProcessUndPurchaseOrder", "MsgWhitelistAddress"},
+		prims:     enterprisePrims, consts: map[string]constDef{"types.ModuleName": {"MOD_enterprise", tModName}, "k.authority": {"KEEPER_authority", tAddrStr}}, world: "eworld",
+		imports:  "lib.Prelude lib.GoSdk GeneratedEnterpriseTypes model.EnterpriseKeeperPrims",
+		typesMod: "GeneratedEnterpriseTypes", keeperMod: "GeneratedEnterpriseKeeper", listName: "enterprise_keeper_other_functions"},
 	"stream": {name: "stream", pbFiles: []string{"params.pb.go", "stream.pb.go", "tx.pb.go"}, goFiles: []string{"stream.go", "msg_server.go"},
 		want: []string{"addSeconds", "ClaimFromStream", "AddDeposit", "SetNewFlowRate", "CancelStreamBySenderReceiver",
 			"CreateNewStream", "CreateStream", "ClaimStream", "TopUpDeposit", "UpdateFlowRate", "CancelStream", "UpdateParams"},
@@ -397,16 +572,16 @@ var modules = map[string]*moduleSpec{
 		imports:  "lib.Prelude lib.GoSdk GeneratedFns GeneratedStreamTypes model.StreamKeeperPrims",
 		typesMod: "GeneratedStreamTypes", keeperMod: "GeneratedStreamKeeper", listName: "stream_keeper_other_functions",
 		msgTypes: []string{"MsgCreateStream", "MsgClaimStream", "MsgTopUpDeposit", "MsgUpdateFlowRate", "MsgCancelStream"}},
-	"wrkchain": {name: "wrkchain", pbFiles: []string{"wrkchain.pb.go", "tx.pb.go"}, goFiles: []string{"register.go", "record.go", "msg_server.go"},
+	"wrkchain": {name: "wrkchain", pbFiles: []string{"wrkchain.pb.go", "tx.pb.go", "genesis.pb.go"}, rootFiles: []string{"genesis.go"}, typeFuncs: [][2]string{{"genesis.go", "NewGenesisState"}}, goFiles: []string{"register.go", "record.go", "msg_server.go"},
 		want: []string{"QuickCheckHeightIsNew", "GetMaxPurchasableSlots", "IncreaseInStateStorage", "RegisterNewWrkChain", "RecordNewWrkchainHashes",
-			"RegisterWrkChain", "RecordWrkChainBlock", "PurchaseWrkChainStateStorage", "UpdateParams"},
+			"RegisterWrkChain", "RecordWrkChainBlock", "PurchaseWrkChainStateStorage", "UpdateParams", "InitGenesis", "ExportGenesis"},
 		prims: registryPrims("WrkChain", "WrkChainBlock"), consts: registryConsts, world: "rworld",
 		imports:  "lib.Prelude lib.GoSdk GeneratedWrkchainTypes model.WrkchainKeeperPrims",
 		typesMod: "GeneratedWrkchainTypes", keeperMod: "GeneratedWrkchainKeeper", listName: "wrkchain_keeper_other_functions",
 		msgTypes: []string{"MsgRegisterWrkChain", "MsgRecordWrkChainBlock", "MsgPurchaseWrkChainStateStorage"}},
-	"beacon": {name: "beacon", pbFiles: []string{"beacon.pb.go", "tx.pb.go"}, goFiles: []string{"register.go", "record.go", "msg_server.go"},
+	"beacon": {name: "beacon", pbFiles: []string{"beacon.pb.go", "tx.pb.go", "genesis.pb.go"}, rootFiles: []string{"genesis.go"}, typeFuncs: [][2]string{{"genesis.go", "NewGenesisState"}}, goFiles: []string{"register.go", "record.go", "msg_server.go"},
 		want: []string{"GetMaxPurchasableSlots", "IncreaseInStateStorage", "RegisterNewBeacon", "RecordNewBeaconTimestamp",
-			"RegisterBeacon", "RecordBeaconTimestamp", "PurchaseBeaconStateStorage", "UpdateParams"},
+			"RegisterBeacon", "RecordBeaconTimestamp", "PurchaseBeaconStateStorage", "UpdateParams", "InitGenesis", "ExportGenesis"},
 		prims: registryPrims("Beacon", "BeaconTimestamp"), consts: registryConsts, world: "rworld",
 		imports:  "lib.Prelude lib.GoSdk GeneratedBeaconTypes model.BeaconKeeperPrims",
 		typesMod: "GeneratedBeaconTypes", keeperMod: "GeneratedBeaconKeeper", listName: "beacon_keeper_other_functions",
@@ -418,6 +593,7 @@ type kbinding struct {
 }
 
 type kTrans struct {
+	loops        []string // innermost last: the state tuple of the enclosing range loops
 	usedStateful bool
 	env          map[string]gtype
 	recv         string // receiver name (normalised to "k")
@@ -464,13 +640,18 @@ func (kt *kTrans) lookup(name string) (fnSig, bool) {
 	if s, ok := kt.funcs[name]; ok {
 		return s, true
 	}
+	if !strings.Contains(name, ".") {
+		if s, ok := kt.funcs["types."+name]; ok {
+			return s, true
+		}
+	}
 	return fnSig{}, false
 }
 
 func isEventOrTelemetry(e ast.Expr) bool {
 	n := exprName(e)
 	return strings.HasPrefix(n, "ctx.EventManager().EmitEvent") || strings.HasPrefix(n, "ctx.EventManager().EmitEvents") ||
-		strings.HasPrefix(n, "telemetry.")
+		strings.HasPrefix(n, "telemetry.") || strings.HasPrefix(n, "logger.")
 }
 
 // call renders a call; returns the Coq term and whether it is an outcome, and its result types
@@ -483,6 +664,9 @@ func (kt *kTrans) call(t *ast.CallExpr) (pre []kbinding, term string, sig fnSig,
 		if sel, isSel := t.Fun.(*ast.SelectorExpr); isSel {
 			p, rv, rty := kt.expr(sel.X)
 			if mt, okm := kMethodTable[methodKey{rty, sel.Sel.Name}]; okm {
+				if rty == tCoins && sel.Sel.Name == "Add" && t.Ellipsis == token.NoPos {
+					mt = fnSig{coq: "Coins_AddCoin", impure: true, results: []gtype{tCoins}} // one coin, not coins...
+				}
 				pre = append(pre, p...)
 				sig, found = mt, true
 				recvArg = []string{rv}
@@ -532,9 +716,14 @@ func (kt *kTrans) expr(e ast.Expr) (pre []kbinding, val string, typ gtype) {
 		switch t.Name {
 		case "true", "false":
 			return nil, t.Name, tBool
+		case "nil":
+			return nil, "[]", gtype("L:?") // only used for slices
 		}
 		ty, ok := kt.env[t.Name]
 		if !ok {
+			if _, isEnum := enumConsts[t.Name]; isEnum {
+				return nil, cur.name + "_" + t.Name, tEnum // inside package types
+			}
 			kt.fail("unknown identifier %s", t.Name)
 		}
 		return nil, t.Name, ty
@@ -556,6 +745,9 @@ func (kt *kTrans) expr(e ast.Expr) (pre []kbinding, val string, typ gtype) {
 		return nil, "?", tUnknown
 	case *ast.CompositeLit:
 		ty := goTypeK(t.Type)
+		if ty == tUnit && len(t.Elts) == 0 {
+			return nil, "tt", tUnit
+		}
 		if ty == tCoin && len(t.Elts) == 0 {
 			return nil, "go_zero_coin", tCoin
 		}
@@ -595,6 +787,16 @@ func (kt *kTrans) expr(e ast.Expr) (pre []kbinding, val string, typ gtype) {
 		if c, ok := constTable[kt.callName(t)]; ok {
 			return nil, c.coq, c.typ
 		}
+		if id, ok := t.X.(*ast.Ident); ok && id.Name == "types" {
+			if _, ok := enumConsts[t.Sel.Name]; ok {
+				return nil, cur.name + "_" + t.Sel.Name, tEnum
+			}
+		}
+		if exprName(t) == "ctx.BlockHeader().Time" {
+			if ps, ok := primTable["ctx.BlockTime"]; ok {
+				return nil, "(" + ps.coq + " w)", tTime
+			}
+		}
 		p, v, ty := kt.expr(t.X)
 		switch {
 		case ty == tCoin && t.Sel.Name == "Amount":
@@ -610,6 +812,16 @@ func (kt *kTrans) expr(e ast.Expr) (pre []kbinding, val string, typ gtype) {
 		}
 		kt.fail("unsupported field %s on %s", t.Sel.Name, ty)
 		return p, "?", tUnknown
+	case *ast.IndexExpr:
+		p1, l, lty := kt.expr(t.X)
+		p2, i, ity := kt.expr(t.Index)
+		if !isList(lty) || (ity != tInt64 && ity != tUint64) {
+			kt.fail("index %s[%s]", lty, ity)
+			return nil, "?", tUnknown
+		}
+		tn := kt.tmp()
+		pre = append(append(p1, p2...), kbinding{tn, "(go_index " + l + " " + i + ")"})
+		return pre, tn, elemOf(lty)
 	case *ast.BinaryExpr:
 		p1, a, ta := kt.expr(t.X)
 		p2, b, tb := kt.expr(t.Y)
@@ -621,7 +833,7 @@ func (kt *kTrans) expr(e ast.Expr) (pre []kbinding, val string, typ gtype) {
 			return pre, "(" + a + " && " + b + ")", tBool
 		}
 		num := func(x gtype) bool { return x == tInt64 || x == tUint64 }
-		eqable := func(x gtype) bool { return num(x) || x == tDenom || x == tAddrStr || x == tString }
+		eqable := func(x gtype) bool { return num(x) || x == tDenom || x == tAddrStr || x == tString || x == tEnum }
 		_, litA := t.X.(*ast.BasicLit)
 		_, litB := t.Y.(*ast.BasicLit)
 		// an untyped integer constant takes the type of the other operand
@@ -630,6 +842,22 @@ func (kt *kTrans) expr(e ast.Expr) (pre []kbinding, val string, typ gtype) {
 		}
 		if litB && num(ta) {
 			tb = ta
+		}
+		if (t.Op == token.EQL || t.Op == token.NEQ) && exprName(t.Y) == "nil" {
+			var isn string
+			switch {
+			case ta == tModAcc:
+				isn = "(modacc_is_nil " + a + ")"
+			case isList(ta) || ta == tCoins:
+				isn = "(go_is_nil " + a + ")"
+			default:
+				kt.fail("comparison of %s with nil", ta)
+				isn = "?"
+			}
+			if t.Op == token.NEQ {
+				return p1, "(negb " + isn + ")", tBool
+			}
+			return p1, isn, tBool
 		}
 		switch t.Op {
 		case token.EQL, token.NEQ:
@@ -677,10 +905,39 @@ func (kt *kTrans) expr(e ast.Expr) (pre []kbinding, val string, typ gtype) {
 		name := exprName(t.Fun)
 		if name == "len" && len(t.Args) == 1 {
 			p, v, ty := kt.expr(t.Args[0])
+			if isList(ty) {
+				return p, "(go_len_list " + v + ")", tInt64
+			}
 			if ty != tStr {
 				kt.fail("len of %s", ty)
 			}
 			return p, "(go_len " + v + ")", tInt64
+		}
+		if name == "append" && len(t.Args) == 2 && t.Ellipsis == token.NoPos {
+			p1, l, lty := kt.expr(t.Args[0])
+			p2, x, xty := kt.expr(t.Args[1])
+			if !isList(lty) || elemOf(lty) != xty {
+				kt.fail("append(%s, %s)", lty, xty)
+			}
+			return append(p1, p2...), "(go_append " + l + " " + x + ")", lty
+		}
+		if name == "strings.Split" && len(t.Args) == 2 {
+			p, v, ty := kt.expr(t.Args[0])
+			if ty != tSigners || exprName(t.Args[1]) != "\",\"" {
+				kt.fail("strings.Split of %s", ty)
+			}
+			return p, v, gtype("L:" + string(tAddrStr))
+		}
+		if name == "int" && len(t.Args) == 1 {
+			p, v, ty := kt.expr(t.Args[0])
+			switch ty {
+			case tUint64:
+				return p, "(go_int64_of_uint64 " + v + ")", tInt64
+			case tInt64:
+				return p, v, tInt64
+			}
+			kt.fail("unsupported conversion int(%s)", ty)
+			return p, "?", tUnknown
 		}
 		if name == "uint64" || name == "int64" {
 			p, v, ty := kt.expr(t.Args[0])
@@ -742,6 +999,13 @@ func isErrCheck(s ast.Stmt, errName string) (bool, string) {
 	if len(is.Body.List) != 1 {
 		return false, ""
 	}
+	if es, ok := is.Body.List[0].(*ast.ExprStmt); ok {
+		// if err != nil { panic(err) }
+		if ce, ok := es.X.(*ast.CallExpr); ok && exprName(ce.Fun) == "panic" && len(ce.Args) == 1 && exprName(ce.Args[0]) == errName {
+			return true, "PANIC"
+		}
+		return false, ""
+	}
 	rs, ok := is.Body.List[0].(*ast.ReturnStmt)
 	if !ok || len(rs.Results) == 0 {
 		return false, ""
@@ -751,6 +1015,9 @@ func isErrCheck(s ast.Stmt, errName string) (bool, string) {
 		return true, ""
 	}
 	if ce, ok := last.(*ast.CallExpr); ok && isWrap(exprName(ce.Fun)) && len(ce.Args) >= 1 {
+		if exprName(ce.Args[0]) == errName {
+			return true, "" // the same error, annotated
+		}
 		return true, errConst(ce.Args[0])
 	}
 	return false, ""
@@ -772,9 +1039,19 @@ func (kt *kTrans) bindCall(lhs []ast.Expr, ce *ast.CallExpr, rest []ast.Stmt) (s
 	if sig.hasErr {
 		want++
 	}
+	if sig.hasErr && len(lhs) == 0 && nval == 0 && sig.stateful {
+		// the error is dropped on the floor: a failing call changes nothing and execution goes on
+		return kwrap(pre, "do (w, _) <- (ignore_err w "+term+");\n"), rest, true
+	}
 	if len(lhs) != want {
 		kt.fail("call %s: %d values assigned, %d returned", name, len(lhs), want)
 		return "?", rest, false
+	}
+	if sig.hasErr && exprName(lhs[len(lhs)-1]) == "_" && !sig.stateful && nval == 1 {
+		// v, _ := f(..): on error v is the zero value
+		n := exprName(lhs[0])
+		kt.env[n] = sig.results[0]
+		return kwrap(pre, "do "+n+" <- (drop_err "+zeroOf(sig.results[0])+" "+term+");\n"), rest, true
 	}
 	if sig.hasErr {
 		errName := exprName(lhs[len(lhs)-1])
@@ -786,7 +1063,9 @@ func (kt *kTrans) bindCall(lhs []ast.Expr, ce *ast.CallExpr, rest []ast.Stmt) (s
 			kt.fail("call %s: the error is not propagated by the next statement", name)
 			return "?", rest, false
 		}
-		if remap != "" {
+		if remap == "PANIC" {
+			term = "(panic_on_err " + cur.name + "_PANIC " + term + ")"
+		} else if remap != "" {
 			term = "(map_err " + remap + " " + term + ")"
 		}
 		rest = rest[1:]
@@ -822,8 +1101,44 @@ func (kt *kTrans) bindCall(lhs []ast.Expr, ce *ast.CallExpr, rest []ast.Stmt) (s
 	return kwrap(pre, line), rest, true
 }
 
+// droppable: statements that are not modelled (events, telemetry, logging), and ifs containing nothing else
+func droppable(s ast.Stmt) bool {
+	switch t := s.(type) {
+	case *ast.ExprStmt:
+		ce, ok := t.X.(*ast.CallExpr)
+		return ok && isEventOrTelemetry(ce)
+	case *ast.DeferStmt:
+		return isEventOrTelemetry(t.Call)
+	case *ast.IfStmt:
+		if t.Init != nil || t.Else != nil {
+			return false
+		}
+		c := exprName(t.Cond)
+		if c != "ctx.IsCheckTx()" && !(func() bool {
+			u, ok := t.Cond.(*ast.UnaryExpr)
+			return ok && u.Op == token.NOT && exprName(u.X) == "ctx.IsCheckTx()"
+		}()) {
+			return false
+		}
+		for _, b := range t.Body.List {
+			if !droppable(b) {
+				return false
+			}
+		}
+		return true
+	}
+	return false
+}
+
+func (kt *kTrans) loopState() string {
+	return kt.loops[len(kt.loops)-1]
+}
+
 func (kt *kTrans) stmts(list []ast.Stmt) string {
 	if len(list) == 0 {
+		if len(kt.loops) > 0 {
+			return "Ok (LCont " + kt.loopState() + ")"
+		}
 		if len(kt.results) == 0 && !kt.hasErr {
 			return kt.ret(nil)
 		}
@@ -831,9 +1146,20 @@ func (kt *kTrans) stmts(list []ast.Stmt) string {
 		return "?"
 	}
 	s, rest := list[0], list[1:]
+	if droppable(s) {
+		return kt.stmts(rest)
+	}
 	switch t := s.(type) {
 	case *ast.ReturnStmt:
 		return kt.ret(t.Results)
+	case *ast.BranchStmt:
+		if t.Tok == token.CONTINUE && t.Label == nil && len(kt.loops) > 0 {
+			return "Ok (LCont " + kt.loopState() + ")"
+		}
+		kt.fail("unsupported branch statement %s", t.Tok)
+		return "?"
+	case *ast.RangeStmt:
+		return kt.rangeStmt(t, rest)
 	case *ast.DeferStmt:
 		if isEventOrTelemetry(t.Call) {
 			return kt.stmts(rest)
@@ -848,6 +1174,9 @@ func (kt *kTrans) stmts(list []ast.Stmt) string {
 		}
 		if isEventOrTelemetry(ce) {
 			return kt.stmts(rest)
+		}
+		if exprName(ce.Fun) == "panic" {
+			return "Panic " + cur.name + "_PANIC"
 		}
 		line, rest2, ok := kt.bindCall(nil, ce, rest)
 		if !ok {
@@ -878,6 +1207,20 @@ func (kt *kTrans) stmts(list []ast.Stmt) string {
 		if ce, ok := t.Rhs[0].(*ast.CallExpr); ok && exprName(ce.Fun) == "sdk.UnwrapSDKContext" {
 			kt.env[exprName(t.Lhs[0])] = tCtx
 			return kt.stmts(rest)
+		}
+		// logger := k.Logger(ctx): logging is not modelled
+		if ce, ok := t.Rhs[0].(*ast.CallExpr); ok && kt.callName(ce.Fun) == "k.Logger" && exprName(t.Lhs[0]) == "logger" {
+			return kt.stmts(rest)
+		}
+		// several values from a method call (e.g. coins.Find, coins.SafeSub)
+		if ce, ok := t.Rhs[0].(*ast.CallExpr); ok && len(t.Lhs) > 1 {
+			if _, found := kt.lookup(kt.callName(ce.Fun)); !found {
+				line, rest2, ok := kt.bindCall(t.Lhs, ce, rest)
+				if !ok {
+					return "?"
+				}
+				return line + kt.stmts(rest2)
+			}
 		}
 		if ce, ok := t.Rhs[0].(*ast.CallExpr); ok {
 			name := kt.callName(ce.Fun)
@@ -980,6 +1323,18 @@ func (kt *kTrans) ret(results []ast.Expr) string {
 		last := results[len(results)-1]
 		if exprName(last) != "nil" {
 			ce, ok := last.(*ast.CallExpr)
+			if ok && nval == 0 {
+				// return f(..) where f returns only an error
+				if sig, found := kt.lookup(kt.callName(ce.Fun)); found && sig.hasErr && len(sig.results) == 0 {
+					pre, term, _, okc := kt.call(ce)
+					if okc && sig.stateful && kt.stateful {
+						return kwrap(pre, "do (w, _) <- "+term+";\nOk (w, tt)")
+					}
+					if okc && !sig.stateful {
+						return kwrap(pre, "do _ <- "+term+";\n"+kt.okUnit())
+					}
+				}
+			}
 			if ok {
 				fn := exprName(ce.Fun)
 				if isWrap(fn) && len(ce.Args) >= 1 {
@@ -998,10 +1353,108 @@ func (kt *kTrans) ret(results []ast.Expr) string {
 		pre = append(pre, p...)
 		vals = append(vals, v)
 	}
+	val := tuple(vals)
 	if kt.stateful {
-		return kwrap(pre, "Ok (w, "+tuple(vals)+")")
+		val = "(w, " + tuple(vals) + ")"
 	}
-	return kwrap(pre, "Ok "+tuple(vals))
+	if len(kt.loops) > 0 {
+		return kwrap(pre, "Ok (LRet "+val+")")
+	}
+	return kwrap(pre, "Ok "+val)
+}
+
+// assignedOuter: variables declared before the loop that its body assigns with `=` (also through a field)
+func assignedOuter(body *ast.BlockStmt, env map[string]gtype) []string {
+	seen := map[string]bool{}
+	var out []string
+	local := map[string]bool{}
+	ast.Inspect(body, func(n ast.Node) bool {
+		as, ok := n.(*ast.AssignStmt)
+		if !ok {
+			return true
+		}
+		for _, l := range as.Lhs {
+			var id *ast.Ident
+			switch x := l.(type) {
+			case *ast.Ident:
+				id = x
+			case *ast.SelectorExpr:
+				id, _ = x.X.(*ast.Ident)
+			}
+			if id == nil || id.Name == "_" {
+				continue
+			}
+			if as.Tok == token.DEFINE {
+				if _, isSel := l.(*ast.SelectorExpr); !isSel {
+					local[id.Name] = true
+					continue
+				}
+			}
+			if _, outer := env[id.Name]; outer && !local[id.Name] && !seen[id.Name] && env[id.Name] != tCtx {
+				seen[id.Name] = true
+				out = append(out, id.Name)
+			}
+		}
+		return true
+	})
+	sort.Strings(out)
+	return out
+}
+
+// rangeStmt: `for _, x := range xs { body }` as go_range over the list, threading the world and the outer variables
+// the body assigns; `continue` and the end of the body continue with the next element, `return` leaves the function.
+func (kt *kTrans) rangeStmt(t *ast.RangeStmt, rest []ast.Stmt) string {
+	if t.Tok != token.DEFINE || t.Value == nil || (t.Key != nil && exprName(t.Key) != "_") {
+		kt.fail("unsupported range form")
+		return "?"
+	}
+	pre, xs, xty := kt.expr(t.X)
+	if !isList(xty) {
+		kt.fail("range over %s", xty)
+		return "?"
+	}
+	x := exprName(t.Value)
+	vars := assignedOuter(t.Body, kt.env)
+	var parts []string
+	if kt.stateful {
+		parts = append(parts, "w")
+	}
+	parts = append(parts, vars...)
+	state := tuple(parts)
+	n := kt.tmp()
+	st, lr := "st"+n, "lr"+n
+	unpack := func(k string) string {
+		switch len(parts) {
+		case 0:
+			return k
+		case 1:
+			return "let " + parts[0] + " := " + st + " in\n" + k
+		}
+		return "let '" + state + " := " + st + " in\n" + k
+	}
+	saved := map[string]gtype{}
+	for k, v := range kt.env {
+		saved[k] = v
+	}
+	kt.env[x] = elemOf(xty)
+	kt.loops = append(kt.loops, state)
+	body := kt.stmts(t.Body.List)
+	kt.loops = kt.loops[:len(kt.loops)-1]
+	kt.env = saved
+	after := kt.stmts(rest)
+	retv := "Ok r_"
+	if len(kt.loops) > 0 {
+		retv = "Ok (LRet r_)"
+	}
+	return kwrap(pre, "do "+lr+" <- (go_range (fun "+x+" "+st+" =>\n"+unpack(body)+") "+xs+" "+state+");\n"+
+		"match "+lr+" with\n| LRet r_ => "+retv+"\n| LCont "+st+" =>\n"+unpack(after)+"\nend")
+}
+
+func (kt *kTrans) okUnit() string {
+	if kt.stateful {
+		return "Ok (w, tt)"
+	}
+	return "Ok tt"
 }
 
 func sigOf(fd *ast.FuncDecl) (fnSig, []field, string) {
@@ -1016,6 +1469,13 @@ func sigOf(fd *ast.FuncDecl) (fnSig, []field, string) {
 		}
 	}
 	for i, f := range fd.Type.Params.List {
+		if exprName(f.Type) == "keeper.Keeper" && len(f.Names) == 1 {
+			recv = f.Names[0].Name // the keeper handed in: calls on it are the module's keeper calls
+			continue
+		}
+		if tn := exprName(f.Type); tn == "types.BankKeeper" || tn == "types.AccountKeeper" {
+			continue // other keepers handed in: their calls are primitives under the parameter's name
+		}
 		ty := goTypeK(f.Type)
 		for _, n := range f.Names {
 			if ty == tCtx && i == 0 {
@@ -1120,6 +1580,15 @@ func writeKeeper(repo, module, typesOut, keeperOut string) {
 			}
 		}
 	}
+	for _, fn := range cur.rootFiles {
+		f := parseFile(filepath.Join(repo, "x", cur.name, fn))
+		for _, d := range f.Decls {
+			if fd, ok := d.(*ast.FuncDecl); ok && fd.Body != nil {
+				decls[fd.Name.Name] = fd
+				allNames = append(allNames, fd.Name.Name)
+			}
+		}
+	}
 	sort.Strings(allNames)
 	var sb strings.Builder
 	sb.WriteString("(* GENERATED by /verif/translator (gokeeper.go) from /repo/x/" + cur.name + "/keeper/{" + strings.Join(cur.goFiles, ",") + "} on every check.\n")
@@ -1127,6 +1596,26 @@ func writeKeeper(repo, module, typesOut, keeperOut string) {
 	sb.WriteString("   The proofs/Generated*Eq.v files prove these equal to the hand-written model. Do not edit. *)\n")
 	sb.WriteString("From Coq Require Import String.\nFrom MC Require Import " + cur.imports + ".\nOpen Scope Z_scope.\n\n")
 	funcs := map[string]fnSig{}
+	// pure helpers of package types
+	for _, tfn := range cur.typeFuncs {
+		tf := parseFile(filepath.Join(repo, "x", cur.name, "types", tfn[0]))
+		found := false
+		for _, d := range tf.Decls {
+			if fd, ok := d.(*ast.FuncDecl); ok && fd.Body != nil && fd.Recv == nil && fd.Name.Name == tfn[1] {
+				found = true
+				def, errs, sig := translateKeeperFunc(fd, funcs, "")
+				if len(errs) > 0 {
+					sb.WriteString("(* NOT TRANSLATED types." + tfn[1] + ": " + strings.Join(errs, "; ") + " *)\n\n")
+				} else {
+					sb.WriteString(def + "\n")
+					funcs["types."+tfn[1]] = sig
+				}
+			}
+		}
+		if !found {
+			sb.WriteString("(* NOT FOUND types." + tfn[1] + " *)\n\n")
+		}
+	}
 	// the stateless checks of the messages (x/<module>/types/msgs.go)
 	if len(cur.msgTypes) > 0 {
 		mf := parseFile(filepath.Join(repo, "x", cur.name, "types", "msgs.go"))
